@@ -448,6 +448,7 @@ def rand_case(rng, ntasks=None, maxlen=12):
 ALPHA = [NUM0, NUM4, SLEEP4, SLEEP0, SEL_T, SEL_R0, SEL_R1, BLOCK, SLEEPN, RAISE, EXIT, ["recv", 0, None], ["send", 2, 6, None, 4],
          ["cancel", 0], ["sleepabs", T0 + 4]]
 ALPHA += [["again", -k, c] for k in (1, 2, 3, 4, 5) for c in (True, False)]          # -k: k-th fixed sub-function (see SUBS)
+DROP = [SLEEPN, ["sleepabs", T0 + 4], ["again", -2, False], ["again", -5, False], ["again", -1, False]]
 CORE = [NUM0, NUM4, SLEEP4, SEL_T, SEL_R0, BLOCK, RAISE, ["again", -1, True], ["again", -2, True], ["again", -4, False]]
 FD_R, FD_W, FD_X = [T0 + 6, None, None], [None, None, T0 + 2], [None, None, None]
 ONE_TIMER = [[5, True, True, 2]]
@@ -722,7 +723,7 @@ class C06(Check):
         cases.append({"kind": "epoll", "n": 2, "label": "epoll", "calls": [{"write": [0], "drain": [], "rl": [0, 1], "wl": [1]},
                      {"write": [], "drain": [0], "rl": [0, 1], "wl": []}, {"write": [1], "drain": [], "rl": [1], "wl": [0, 1]}]})
         cases += list(scope(CORE, 2, 2))                                         # 111^2
-        cases += list(scope(ALPHA, 3, 1, label="scope3x1"))                      # 26^3
+        cases += list(scope([a for a in ALPHA if a not in DROP], 3, 1, label="scope3x1"))     # 21^3 (all 26^3 in the thorough tier)
         for alpha in ([NUM0, SLEEP4], [NUM0, ["again", -1, True]], [SEL_R0, RAISE]):
             cases += list(scope(alpha, 3, 3, label="scope3x3"))                  # 15^3 each
         # threaded select hub (forced thread scheduler)
@@ -745,8 +746,9 @@ class C06(Check):
             for i, c in enumerate(scope(TH_C, 3, 2, timers=[[8, False, True, None]], label="thr-scope3x2-wide")):   # 13^3, two schedules each
                 yield threaded(c, sched_of(i))
                 yield threaded(c, {"t": "random", "seed": rng.randrange(1 << 30)})
-            drop = [SLEEPN, ["sleepabs", T0 + 4], ["again", -2, False], ["again", -5, False], ["again", -1, False]]
-            for c in scope([a for a in ALPHA if a not in drop], 2, 2, label="scope2x2-wide"):      # 421^2
+            for c in scope([a for a in ALPHA if a not in DROP], 2, 2, label="scope2x2-wide"):      # 421^2
+                yield c
+            for c in scope(ALPHA, 3, 1, label="scope3x1-full"):                  # 26^3
                 yield c
             for _ in range(2):                                                   # all 3 tasks x <=3 yields over random 3-symbol alphabets
                 alpha = rng.sample(ALPHA, 3)
